@@ -1,6 +1,8 @@
 package engine
 
 import (
+	"strconv"
+	"regexp"
 	"time"
 	"os"
 	"fmt"
@@ -836,7 +838,9 @@ func (e *Exec) execBlock(rg *region, b *ssa.BasicBlock, st *State) {
 					}
 				}
 			}
-			c = e.decideBranch(st, c)
+			if len(e.frames) == 2 { // the function under contract itself, not its inlined callees
+				c = e.decideBranch(st, c)
+			}
 			s1 := st.Clone()
 			s1.Branch(c)
 			s2 := st
@@ -967,39 +971,105 @@ func (e *Exec) decideBranch(st *State, c *smt.Term) *smt.Term {
 	if c.Op != "=" || len(c.Args) != 2 || !(c.Args[0].IsConst() || c.Args[1].IsConst()) || c.HasBound {
 		return c
 	}
-	if v, ok := e.branchMemo[c]; ok {
-		return v
+	x, k := c.Args[0], c.Args[1]
+	if x.IsConst() {
+		x, k = k, x
 	}
-	if e.branchMemo == nil {
-		e.branchMemo = map[*smt.Term]*smt.Term{}
+	// answers are valid under the hypothesis they were obtained for, and under any stronger one
+	conj := map[*smt.Term]bool{}
+	var addConj func(t *smt.Term)
+	addConj = func(t *smt.Term) {
+		if t.Op == "and" {
+			for _, a := range t.Args {
+				addConj(a)
+			}
+			return
+		}
+		conj[t] = true
+	}
+	addConj(st.Reach)
+	covers := func(h []*smt.Term) bool {
+		for _, t := range h {
+			if !conj[t] {
+				return false
+			}
+		}
+		return true
+	}
+	flat := func() []*smt.Term {
+		var out []*smt.Term
+		for t := range conj {
+			out = append(out, t)
+		}
+		return out
+	}
+	for _, p := range e.pins {
+		if p.x == x && covers(p.hyp) {
+			return smt.BoolConst(p.k.Val == k.Val)
+		}
+	}
+	for _, m := range e.branchAns {
+		if m.c == c && covers(m.hyp) {
+			return m.res
+		}
+	}
+	if e.branchDir == "" {
 		e.branchDir = os.TempDir() // (each query file is removed as soon as it is answered)
 	}
 	hyp := e.hyp(st)
-	ask := func(extra *smt.Term) string {
+	query := func(asserts []*smt.Term, vals []*smt.Term) smt.Result {
 		e.branchQueries++
-		r := smt.SolveOne(e.branchDir, fmt.Sprintf("govc-branch-%d-%p-%d", os.Getpid(), e, e.branchQueries), smt.Script([]*smt.Term{hyp, extra}, nil, false), 2*time.Second)
-		return r.Status
+		return smt.SolveOne(e.branchDir, fmt.Sprintf("govc-branch-%d-%p-%d", os.Getpid(), e, e.branchQueries), smt.Script(asserts, vals, len(vals) > 0), 2*time.Second)
+	}
+	// first try to pin the switched value in two queries: a model value, then "can it be anything else?"
+	if e.pinTried == nil {
+		e.pinTried = map[*smt.Term]int{}
+	}
+	if e.pinTried[x] < 2 {
+		e.pinTried[x]++
+		if r := query([]*smt.Term{hyp}, []*smt.Term{x}); r.Status == "sat" {
+			if m := pinValRe.FindStringSubmatch(r.Model); m != nil {
+				var v uint64
+				if m[1] != "" {
+					v, _ = strconv.ParseUint(m[1], 16, 64)
+				} else {
+					v, _ = strconv.ParseUint(m[2], 2, 64)
+				}
+				k0 := smt.Const(k.S.W, v)
+				if r2 := query([]*smt.Term{hyp, smt.Not(smt.Eq(x, k0))}, nil); r2.Status == "unsat" {
+					e.pins = append(e.pins, pinRec{x, k0, flat()})
+					if debugFold {
+						fmt.Fprintf(os.Stderr, "value pinned by solver: %s := %s\n", x.Short(120), k0.Short(20))
+					}
+					return smt.BoolConst(k0.Val == k.Val)
+				}
+			}
+		}
 	}
 	res := c
-	if ask(c) == "unsat" {
+	if query([]*smt.Term{hyp, c}, nil).Status == "unsat" {
 		res = smt.False
-	} else if ask(smt.Not(c)) == "unsat" {
+	} else if query([]*smt.Term{hyp, smt.Not(c)}, nil).Status == "unsat" {
 		res = smt.True
-		x, k := c.Args[0], c.Args[1]
-		if x.IsConst() {
-			x, k = k, x
-		}
-		if _, have := e.facts[x]; !have && e.fold(st.Path).IsTrue() {
-			e.facts[x] = k
-			e.foldMemo = nil
-		}
 	}
 	if debugFold {
 		fmt.Fprintf(os.Stderr, "branch decided by solver: %s => %s\n", c.Short(120), res.Short(10))
 	}
-	e.branchMemo[c] = res
+	e.branchAns = append(e.branchAns, branchRec{c, res, flat()})
 	return res
 }
+
+type pinRec struct {
+	x, k *smt.Term
+	hyp  []*smt.Term
+}
+
+type branchRec struct {
+	c, res *smt.Term
+	hyp    []*smt.Term
+}
+
+var pinValRe = regexp.MustCompile(`\(\(.* (?:#x([0-9a-fA-F]+)|#b([01]+))\)\)\s*$`)
 
 // decideOn: the contract being verified asked for solver-decided branches (clause `decide-branches`).
 func (e *Exec) decideOn() bool {
